@@ -594,6 +594,46 @@ impl Driver {
             }
             let mut v = V { gens: &gens, found: vec![] };
             syn::visit::Visit::visit_block(&mut v, ff.block);
+            // `callee::<A, B>(..)` where the callee abstracts `R::CONST`: the caller needs `A::CONST` when A is generic here
+            {
+                struct C<'g> {
+                    gens: &'g BTreeSet<String>,
+                    fns: &'g Vec<FnInfo>,
+                    found: Vec<String>,
+                }
+                impl<'ast, 'g> syn::visit::Visit<'ast> for C<'g> {
+                    fn visit_expr_call(&mut self, c: &'ast ExprCall) {
+                        if let Expr::Path(p) = &*c.func {
+                            let seg = p.path.segments.last().unwrap();
+                            if let PathArguments::AngleBracketed(a) = &seg.arguments {
+                                let targs: Vec<String> = a.args.iter().filter_map(|g| if let GenericArgument::Type(Type::Path(tp)) = g { tp.path.get_ident().map(|i| i.to_string()) } else { None }).collect();
+                                for f in self.fns.iter().filter(|f| f.name == seg.ident.to_string() && !f.assoc_params.is_empty() && f.generic_names.len() == targs.len()) {
+                                    for (k, _) in f.assoc_params.iter() {
+                                        let mut parts: Vec<&str> = k.split("::").collect();
+                                        if let Some(gi) = f.generic_names.iter().position(|g| g == parts[0]) {
+                                            if self.gens.contains(&targs[gi]) {
+                                                parts[0] = &targs[gi];
+                                                let nk = parts.join("::");
+                                                if !self.found.contains(&nk) {
+                                                    self.found.push(nk);
+                                                }
+                                            }
+                                        }
+                                    }
+                                }
+                            }
+                        }
+                        syn::visit::visit_expr_call(self, c);
+                    }
+                }
+                let mut c = C { gens: &gens, fns: &self.tables.fns, found: vec![] };
+                syn::visit::Visit::visit_block(&mut c, ff.block);
+                for k in c.found {
+                    if !v.found.contains(&k) {
+                        v.found.push(k);
+                    }
+                }
+            }
             for k in v.found {
                 let last = k.rsplit("::").next().unwrap().to_string();
                 match self.tables.assoc_tys.get(&last) {
@@ -691,7 +731,7 @@ impl Driver {
         if self.tables.fns.iter().any(|f| f.coq == coq) {
             return Err(format!("{} `{}`: Coq name `{}` is already used (give `as=`)", file, spec, coq));
         }
-        let info = FnInfo { key: spec.to_string(), name: name.clone(), coq, self_ty: self_ty.clone(), trait_name: trait_spec.clone(), self_kind, const_generics, assoc_params, params, mut_params, mvars, file: file.to_string(), ret, fuel: false };
+        let info = FnInfo { key: spec.to_string(), name: name.clone(), coq, self_ty: self_ty.clone(), trait_name: trait_spec.clone(), self_kind, const_generics, assoc_params, params, mut_params, mvars, generic_names: ff.sig.generics.params.iter().filter_map(|p| if let GenericParam::Type(t) = p { Some(t.ident.to_string()) } else { None }).collect(), file: file.to_string(), ret, fuel: false };
         self.tables.fns.push(info);
         let idx = self.tables.fns.len() - 1;
         self.jobs.push(FnJob { file: file.to_string(), self_ty, trait_spec, name, info_idx: idx, module });
@@ -730,7 +770,7 @@ impl Driver {
         let (ty, ex, l1, l2) = found[0];
         let mvars = self.mvars_of(quote::ToTokens::to_token_stream(ex), None, file);
         let ty = self.conv(ty, &BTreeSet::new(), st.as_deref(), None)?;
-        let mut tr = Tr { t: &self.tables, self_ty: st.clone(), ret_ty: ty.clone(), mut_self: false, counter: BTreeMap::new(), mut_methods: BTreeSet::new(), generic_tys: BTreeSet::new(), subst: BTreeMap::new(), fuel: false, needs_fuel: false, fuel_var: String::new(), fuel_names: BTreeSet::new(), mutarg_names: BTreeSet::new(), mut_params: vec![], ret_coq: String::new(), loops: vec![], fn_assigned: BTreeSet::new(), cur_file: file.to_string(), fn_coq: String::new(), loop_counter: 0, aux_defs: vec![] };
+        let mut tr = Tr { t: &self.tables, self_ty: st.clone(), ret_ty: ty.clone(), mut_self: false, counter: BTreeMap::new(), mut_methods: BTreeSet::new(), generic_tys: BTreeSet::new(), subst: BTreeMap::new(), fuel: false, needs_fuel: false, fuel_var: String::new(), fuel_names: BTreeSet::new(), mutarg_names: BTreeSet::new(), mut_params: vec![], ret_coq: String::new(), loops: vec![], fn_assigned: BTreeSet::new(), cur_file: file.to_string(), fn_coq: String::new(), loop_counter: 0, aux_defs: vec![], turbofish_types: None };
         let mut cenv = Env::default();
         let cbinders = self.mvar_binders(&mvars, &mut tr, &mut cenv)?;
         let v = tr.pure(ex, &cenv, Some(&ty)).map_err(|e| format!("{} const `{}`: {}", file, spec, e))?;
@@ -809,6 +849,7 @@ impl Driver {
             fn_coq: info.coq.clone(),
             loop_counter: 0,
             aux_defs: vec![],
+            turbofish_types: None,
         };
         tr.fn_assigned = tr.effects_stmts(&ff.block.stmts).assigned;
         let mut env = Env::default();
@@ -829,7 +870,8 @@ impl Driver {
             env.push(n, var(c, t.clone()));
         }
         if info.self_kind != SelfKind::None {
-            let t = Ty::Adt(job.self_ty.clone().unwrap());
+            let stn = job.self_ty.clone().unwrap();
+            let t = self.tables.resolve_name(&stn, &job.file, Some(&stn)).unwrap_or(Ty::Adt(stn));
             let c = tr.fresh("self");
             write!(binders, " ({} : {})", c, self.tables.coq_ty(&t).map_err(nf)?).unwrap();
             env.push("self", var(c, t));
